@@ -35,6 +35,12 @@ def stab_from_codes(n, codes, fmt="matrices"):
     if fmt == "matrices-wide":
         R, S, ph = impl.matrices_of_codes(codes, n, dtype=np.int64)
         return lib.stabilizer.Stabilizer((R, S, ph))
+    if fmt == "matrices-bool":          # boolean arrays, as qiskit's PauliList / Pauli hold their x and z parts
+        R, S, ph = impl.matrices_of_codes(codes, n, dtype=np.bool_)
+        return lib.stabilizer.Stabilizer((R, S, ph))
+    if fmt == "matrices-u8":
+        R, S, ph = impl.matrices_of_codes(codes, n, dtype=np.uint8)
+        return lib.stabilizer.Stabilizer((R, S, ph))
     if fmt == "strings":
         return lib.stabilizer.Stabilizer([impl.code_to_str(c, n, "always") for c in codes])
     if fmt == "strings-minus":
@@ -76,10 +82,14 @@ def build_input(job):
     n, codes, fmt = job["n"], job["codes"], job.get("fmt", "matrices")
     if fmt == "graph":
         g = lib.graph.Graph.decompress(n, job["graph"])
+        _OWN.append(g)          # the caller's own graph object: it goes on editing it once the call is over (api_call)
         return lib.stabilizer.Stabilizer(g)
     if fmt == "circuit":
-        return lib.stabilizer.Stabilizer(impl.circuit_from_gates(n, job["program"]))
+        return lib.stabilizer.Stabilizer(impl.circuit_from_gates(n, job["program"], split=(len(job["program"]) % 4 == 2) * (1 + len(job["program"]) % max(1, n - 1))))
     return stab_from_codes(n, codes, fmt)
+
+
+_OWN = []         # objects the caller built itself and passed (or used to build what it passed); edited after the call
 
 
 def hostile(obj):
@@ -120,10 +130,10 @@ def api_call(job):
            "alt": [], "hasalt": 0, "stale": ""}
     try:
         if api == "compress":
-            arg = impl.circuit_from_gates(n, job["program"])
+            arg = job["_arg"] if job.get("_arg") is not None else impl.circuit_from_gates(n, job["program"], split=(len(job["program"]) % 4 == 1) * (1 + len(job["program"]) % max(1, n - 1)))
             before = impl.gates_of(arg)
         else:
-            arg = build_input(job)
+            arg = job["_arg"] if job.get("_arg") is not None else build_input(job)      # _arg: an object the caller already holds and passes again
             before = _snapshot_stab(arg)
     except Exception as e:
         out["exc"] = "input:" + exc_name(e)
@@ -139,6 +149,8 @@ def api_call(job):
         # did the LIBRARY modify the argument? (snapshot taken before the harness itself starts scribbling over the result, which may be the argument object)
         out["unchanged"] = 1 if (impl.gates_of(arg) if api == "compress" else _snapshot_stab(arg)) == before else 0
         hostile(qc)                  # the caller now edits the circuit it was given ...
+        while _OWN:                  # ... and the graph object it had built its input from
+            hostile(_OWN.pop())
         _RECENT.append((qc, impl.gates_of(qc), f"{api} n={n} conn={conn} codes={job.get('codes')} fmt={job.get('fmt')}"))     # ... and nobody else may touch it afterwards
         del _RECENT[:-40]
     except Exception as e:
@@ -172,15 +184,29 @@ def api_call(job):
 # MUB families
 # ---------------------------------------------------------------------------------------------
 def mub_family(job):
-    """job = (n, conn) -> everything the three MUB APIs return, projected; plus the library's readout circuits."""
+    """job = (n, conn[, order]) -> everything the three MUB APIs return, projected; plus the library's readout circuits.  The caller then scribbles over
+    everything it was given and asks again, the three APIs in another order: out["again"] is a second family of the same shape."""
+    first = _mub_family_once(job[0], job[1], 0)
+    if len(job) > 2 or first["exc"]:
+        return first
+    first["again"] = _mub_family_once(job[0], job[1], 1)
+    first["again"]["pass"] = 2
+    return first
+
+
+def _mub_family_once(n, conn, order):
     from fractions import Fraction
-    n, conn = job
     lib = L()
-    out = {"n": n, "conn": conn, "exc": None}
+    out = {"n": n, "conn": conn, "exc": None, "pass": 1}
     try:
-        mubs = lib.mub_circuits.get_mubs(n, conn)
-        circs = lib.mub_circuits.get_mub_circuits(n, conn)
-        info = lib.mub_circuits.get_mub_info(n, conn)
+        if order == 0:
+            mubs = lib.mub_circuits.get_mubs(n, conn)
+            circs = lib.mub_circuits.get_mub_circuits(n, conn)
+            info = lib.mub_circuits.get_mub_info(n, conn)
+        else:
+            info = lib.mub_circuits.get_mub_info(n, conn)
+            circs = lib.mub_circuits.get_mub_circuits(n, conn)
+            mubs = lib.mub_circuits.get_mubs(n, conn)
         out["bases"] = [[list(s) for s in b] for b in mubs]
         out["circuits"] = [impl.gates_of(c) for c in circs]
         avg = Fraction(info["average two-qubit count"]).limit_denominator(1 << 20)
@@ -272,7 +298,7 @@ def f2_calls(job):
     rows, dt = job[0], job[1]
     lib = L()
     f2 = lib.f2_algebra
-    A = np.array(rows, dtype=getattr(np, dt))
+    A = np.array(rows, dtype=np.bool_ if dt == "bool" else getattr(np, dt))
     m, n = A.shape
     before = A.copy()
     rec = {"op": "f2", "m": m, "n": n, "A": rows, "dtype": dt, "exc": ""}
@@ -309,13 +335,16 @@ def graph_op(job):
     n, src, kind, a, b = job
     lib = L()
     G = lib.graph.Graph
-    rec = {"op": "graphop", "n": n, "src": src, "kind": kind, "a": a, "b": b, "twice": -1, "id2": -1, "exc": ""}
+    rec = {"op": "graphop", "n": n, "src": src, "kind": kind, "a": a, "b": b, "twice": -1, "id2": -1, "rows2": [], "rowskept": [], "exc": ""}
     try:
         g = G.decompress(n, src)
         rec["srcrows"] = impl.graph_rows(g)
         rec["srcid"] = int(g.compress())
         if kind == "lc":
-            rec["id2"] = int(g.local_complemented(a).compress())
+            cp = g.local_complemented(a)
+            rec["id2"] = int(cp.compress())
+            rec["rows2"] = impl.graph_rows(cp)
+            rec["rowskept"] = impl.graph_rows(g)
             g.local_complementation(a)
             h = g.copy()
             h.local_complementation(a)
@@ -397,7 +426,16 @@ def grouping_records(_):
             for i in range(K):
                 obj = cls(i)
                 again = cls(obj.type, li.Repr([li.NTuple(list(t.data)) for groups in obj.data.groups for t in groups]) if _blocks(obj.data) else li.Repr())
-                sr["reids"].append(int(again.id()) if int(obj.id()) == i else -1)       # id -> (type, grouping) -> id
+                ok = int(obj.id()) == i and int(again.id()) == i
+                blocks = _blocks(obj.data)
+                if ok and len(blocks) > 1:
+                    # the same grouping with its blocks listed in reversed order (blocks of equal size change places; for the one shape whose two singletons
+                    # are ordered, their relative order is kept)
+                    singles = [b for b in blocks if len(b) == 1]
+                    others = [b for b in blocks if len(b) > 1]
+                    rev = singles + others[::-1]
+                    ok = int(cls(obj.type, li.Repr([li.NTuple(list(b)) for b in rev])).id()) == i
+                sr["reids"].append(i if ok else -1)       # id -> (type, grouping) -> id, also with the blocks of the grouping listed in another order
                 sr["types"].append(int(cls.get_entanglement_structure(i)))
             first = {}
             for i, t in enumerate(sr["types"]):
@@ -451,7 +489,8 @@ def denote(job):
             st = St(g)
             rec["unchanged"] = 1 if int(g.compress()) == job["g"] else 0
         elif fmt == "circuit":
-            qc = impl.circuit_from_gates(n, job["program"])
+            # part of the circuits have their qubits spread over two quantum registers (a documented way of building circuits; global indices unchanged)
+            qc = impl.circuit_from_gates(n, job["program"], split=(len(job["program"]) % 3 == 1) * (1 + len(job["program"]) % max(1, n - 1)))
             rec["program"] = job["program"]
             before = impl.gates_of(qc)
             st = St(qc)
@@ -469,8 +508,11 @@ def denote(job):
 def predicates(job):
     n, a, b = job
     rec = {"op": "pred", "n": n, "a": a, "b": b, "exc": ""}
+    # how the caller holds the matrices (a deterministic function of the input): int8, boolean (qiskit), int64, uint8
+    fmt = ("matrices", "matrices-bool", "matrices-wide", "matrices-u8", "matrices", "matrices-bool")[(sum(a) + sum(b)) % 6]
+    rec["fmt"] = fmt
     try:
-        sa, sb = stab_from_codes(n, a), stab_from_codes(n, b)
+        sa, sb = stab_from_codes(n, a, fmt), stab_from_codes(n, b, fmt)
         rec["equiv"] = 1 if sa.is_equivalent_mod_phase(sb) else 0
         X, Z = sa.expand()
         rec["expX"], rec["expZ"] = _mat(X), _mat(Z)
@@ -498,13 +540,16 @@ def layer_search(job):
     lib = L()
     fl = lib.find_local_clifford_layer
     m = len(P)
-    R = np.zeros((n, m), dtype=np.int8)
-    S = np.zeros((n, m), dtype=np.int8)
+    # the binary matrices in one of the array types a caller may hold them in (int8 as Stabilizer stores them, bool as qiskit's PauliList does, uint8, int64);
+    # which one is a deterministic function of the input, so that every run and every replay sees the same call
+    dt = job[4] if len(job) > 4 else ("int8", "bool", "uint8", "int64", "int8")[(sum(P) + 3 * g + m) % 5]
+    R = np.zeros((n, m), dtype=getattr(np, dt + "_" if dt == "bool" else dt))
+    S = np.zeros((n, m), dtype=R.dtype)
     for j, c in enumerate(P):
         for q in range(n):
             R[q, j] = (c >> q) & 1
             S[q, j] = (c >> (8 + q)) & 1
-    rec = {"op": "layer", "n": n, "P": [c % impl.W2 for c in P], "g": g, "res": "none", "blocks": [], "offdiag": 0, "gates": [], "circ": 0, "exc": "", "witness": witness}
+    rec = {"op": "layer", "n": n, "P": [c % impl.W2 for c in P], "g": g, "res": "none", "blocks": [], "offdiag": 0, "gates": [], "circ": 0, "exc": "", "witness": witness, "dtype": dt}
     graph = lib.graph.Graph.decompress(n, g)
     Rb, Sb = R.copy(), S.copy()
     try:
@@ -577,13 +622,37 @@ def device_counts(qc, counts_q, N):
 
 
 def _tomo_build(job, k):
+    import numpy as np
     lib = L()
     N, lst, conn = job["N"], job["list"], job["conn"]
+    form = job.get("argform", "list")
     prep = impl.circuit_from_gates(N, job["comps"][k][1])
+    arg = lst
+    if lst is not None and form == "tuple":
+        arg = tuple(lst)
+    elif lst is not None and form == "edited":
+        arg = np.array(lst)
+    st = None
     if job["kind"] == "full":
-        return lib.tomography.full_state_tomography_circuits(prep, conn, lst)
-    st = stab_from_codes(job["m"], job["meas"], "matrices")
-    return [lib.tomography.stabilizer_measurement_circuit(prep, st, conn, lst)]
+        circs = lib.tomography.full_state_tomography_circuits(prep, conn, arg)
+    else:
+        st = stab_from_codes(job["m"], job["meas"], "matrices")
+        circs = [lib.tomography.stabilizer_measurement_circuit(prep, st, conn, arg)]
+    if form == "edited":
+        # the call is over; the caller goes on using ITS objects: the qubit array is reversed in place, the stabilizer's arrays are overwritten, the
+        # preparation circuit gets more gates.  The delivered circuits (and everything the fitters read later) must not depend on that.
+        try:
+            if lst is not None:
+                arg[:] = arg[::-1].copy()
+            if st is not None:
+                st.R[:] = 0
+                st.S[:] = 1
+                st.phases[:] = 1
+            prep.h(0)
+            prep.x(N - 1)
+        except Exception:
+            pass
+    return circs
 
 
 def tomo_phase_a(job):
@@ -791,12 +860,33 @@ def sign_sweep(job):
     """All (or several) sign vectors of ONE generator list requested one after the other in one process; the caller keeps every returned
     circuit.  -> list of api_call results (one per sign vector); a circuit modified by a later call is reported in the field `stale`."""
     import itertools
+    if job.get("calls"):
+        return conn_sweep(job)
     n, codes, conn, api, vectors = job["n"], job["codes"], job["conn"], job["api"], job["vectors"]
     outs = []
     for v in vectors:
         cs = [(c % impl.W2) + impl.W2 * ((v >> i) & 1) for i, c in enumerate(codes)]
         j = {"api": api, "n": n, "conn": conn, "codes": cs, "fmt": "matrices", "alt": None}
         outs.append((j, api_call(j)))
+    final = {"stale": ""}
+    _check_recent(final)
+    if final["stale"] and outs:
+        outs[-1][1]["stale"] = outs[-1][1]["stale"] or final["stale"]
+    return outs
+
+
+def conn_sweep(job):
+    """ONE Stabilizer object and ONE circuit object, held by the caller and passed again and again: job["calls"] = [(api, connectivity), ...] in the
+    order they are made, all in one process.  -> list of (job, api_call result), each judged like any other call."""
+    n, codes, program = job["n"], job["codes"], job["program"]
+    st = stab_from_codes(n, codes, "matrices") if any(a != "compress" for a, _ in job["calls"]) else None
+    qc = impl.circuit_from_gates(n, program)
+    outs = []
+    for api, conn in job["calls"]:
+        j = {"api": api, "n": n, "conn": conn, "codes": list(codes), "program": program, "fmt": "circuit" if api == "compress" else "matrices", "alt": None,
+             "src": job.get("src", "") + " [same object, call sequence " + " ".join(f"{a}:{c}" for a, c in job["calls"]) + "]", "rep": job.get("rep", -1)}
+        r = api_call(dict(j, _arg=qc if api == "compress" else st))
+        outs.append((j, r))
     final = {"stale": ""}
     _check_recent(final)
     if final["stale"] and outs:
@@ -881,6 +971,24 @@ def synth(job):
             s = impl.code_to_str(c, n, "always")
             strs.append(s[0] + s[1:][::-1])          # qiskit convention: qubit 0 is the LAST character
         qc = lib.rotate_stabilizer_into_state.synth_circuit_from_stabilizers(strs)
+        rec["gates"] = impl.gates_of(qc)
+        rec["outcome"] = "return"
+    except Exception as e:
+        rec["exc"] = exc_name(e)
+    return rec
+
+
+def synth_flags(job):
+    """job = (n, codes (any number of signed Paulis), allow_redundant, allow_underconstrained, invert) -> `synthflags` record"""
+    lib = L()
+    n, codes, red, und, inv = job
+    rec = {"op": "synthflags", "n": n, "given": list(codes), "red": int(red), "und": int(und), "invert": int(inv), "outcome": "raise", "gates": [], "exc": ""}
+    try:
+        strs = []
+        for c in codes:
+            s = impl.code_to_str(c, n, "always")
+            strs.append(s[0] + s[1:][::-1])          # qiskit convention: qubit 0 is the LAST character
+        qc = lib.rotate_stabilizer_into_state.synth_circuit_from_stabilizers(strs, allow_redundant=bool(red), allow_underconstrained=bool(und), invert=bool(inv))
         rec["gates"] = impl.gates_of(qc)
         rec["outcome"] = "return"
     except Exception as e:
